@@ -95,3 +95,12 @@ def adversarial_bounded(tier, seed):
     for key, text, payload in findings:
         res.findings.append(Finding(key=key, text=text, replay=payload, confirmed=True))
     return res
+
+
+@component(("C15", "C19"), "memo.static", "static")
+def memo_static(tier, seed):
+    """memoised methods must be cleared before they are read (a stale viewBox / inherited-attribute cache makes an in-place edit
+    invisible to the next operation): the memo rule of the frame checker, also run with the properties that such a cache breaks"""
+    from pyvc import frame
+
+    return _static(frame._lru_cache_obligations(frame.modules()), "frame", _determinism_witness)
